@@ -94,14 +94,14 @@ inductive Shape (cfg : Cfg) (ps : PS) (r : Req) (ps' : PS) (o : Out) : Prop
   | m3 (srv : Server) (hs : ps' = { ps with verifier := some srv })
       (hv : srv.verified = goodM3 cfg ps r) (h1 : isO1 o = goodM3 cfg ps r) (h2 : isO2 o = false)
       (hm : isM2 o = false)
-  /-- M5 served successfully: only from a verified state -/
-  | m5 (hver : verifiedNow ps = true) (hs : ps'.verifier = ps.verifier) (h2 : isO2 o = true)
+  /-- M5 served successfully: only from a verified state; the exchange is consumed (verifier discarded) -/
+  | m5 (hver : verifiedNow ps = true) (hs : ps'.verifier = none) (h2 : isO2 o = true)
       (h1 : isO1 o = false) (hm : isM2 o = false) (hg : goodM3 cfg ps r = false)
 
 theorem pairingFive_spec (cfg : Cfg) (ps : PS) (Kb user cltpk encKey : Bytes) (calls : List Call) :
     ((pairingFive cfg ps Kb user cltpk encKey calls).1 = ps ∧
         (pairingFive cfg ps Kb user cltpk encKey calls).2.1 = .err500)
-    ∨ ((pairingFive cfg ps Kb user cltpk encKey calls).1.verifier = ps.verifier ∧
+    ∨ ((pairingFive cfg ps Kb user cltpk encKey calls).1.verifier = none ∧
         isO2 (pairingFive cfg ps Kb user cltpk encKey calls).2.1 = true) := by
   unfold pairingFive
   cases cfg.c.uuidOf user with
@@ -111,7 +111,7 @@ theorem pairingFive_spec (cfg : Cfg) (ps : PS) (Kb user cltpk encKey : Bytes) (c
 theorem pairingFour_spec (cfg : Cfg) (ps : PS) (Kb user cltpk cproof encKey : Bytes) (calls : List Call) :
     ((pairingFour cfg ps Kb user cltpk cproof encKey calls).1 = ps ∧
         (pairingFour cfg ps Kb user cltpk cproof encKey calls).2.1 = .err500)
-    ∨ ((pairingFour cfg ps Kb user cltpk cproof encKey calls).1.verifier = ps.verifier ∧
+    ∨ ((pairingFour cfg ps Kb user cltpk cproof encKey calls).1.verifier = none ∧
         isO2 (pairingFour cfg ps Kb user cltpk cproof encKey calls).2.1 = true) := by
   unfold pairingFour
   simp only []
@@ -123,7 +123,7 @@ theorem pairingFour_spec (cfg : Cfg) (ps : PS) (Kb user cltpk cproof encKey : By
 theorem pairingThreeKey_spec (cfg : Cfg) (ps : PS) (Kb ed : Bytes) :
     ((pairingThreeKey cfg ps Kb ed).1 = ps ∧
         ((pairingThreeKey cfg ps Kb ed).2.1 = .err500 ∨ (pairingThreeKey cfg ps Kb ed).2.1 = .m6AuthErr))
-    ∨ ((pairingThreeKey cfg ps Kb ed).1.verifier = ps.verifier ∧
+    ∨ ((pairingThreeKey cfg ps Kb ed).1.verifier = none ∧
         isO2 (pairingThreeKey cfg ps Kb ed).2.1 = true) := by
   unfold pairingThreeKey
   simp only []
@@ -144,7 +144,7 @@ theorem pairingThreeKey_spec (cfg : Cfg) (ps : PS) (Kb ed : Bytes) :
 theorem pairingThree_spec (cfg : Cfg) (ps : PS) (t : Items) :
     ((pairingThree cfg ps t).1 = ps ∧
         ((pairingThree cfg ps t).2.1 = .err500 ∨ (pairingThree cfg ps t).2.1 = .m6AuthErr))
-    ∨ (verifiedNow ps = true ∧ (pairingThree cfg ps t).1.verifier = ps.verifier ∧
+    ∨ (verifiedNow ps = true ∧ (pairingThree cfg ps t).1.verifier = none ∧
         isO2 (pairingThree cfg ps t).2.1 = true) := by
   unfold pairingThree
   split
@@ -253,17 +253,20 @@ theorem run_eq (cfg : Cfg) (ps : PS) (r : Req) (rs : List Req) :
       = ((run cfg (step cfg ps r).1 rs).1, (step cfg ps r).2.1 :: (run cfg (step cfg ps r).1 rs).2) := by
   simp [run]
 
-/-- bystander events are invisible to pair-setup: a history of events behaves exactly like the sequence
-    of its pair-setup requests -/
-theorem runEv_eq_run (cfg : Cfg) (evs : List Ev) : ∀ ps, runEv cfg ps evs = run cfg ps (reqsOf evs) := by
+/-- bystander events are invisible to pair-setup: a history of events in which the accessory is not
+    unpaired by its owner behaves exactly like the sequence of its pair-setup requests -/
+theorem runEv_eq_run (cfg : Cfg) (evs : List Ev) : ∀ ps, (∀ e ∈ evs, e ≠ Ev.unpair) →
+    runEv cfg ps evs = run cfg ps (reqsOf evs) := by
   induction evs with
-  | nil => intro ps; rfl
+  | nil => intro ps _; rfl
   | cons e es ih =>
-    intro ps
+    intro ps h
+    have hes : ∀ e' ∈ es, e' ≠ Ev.unpair := fun e' he' => h e' (List.mem_cons_of_mem _ he')
     cases e with
-    | req r => simp only [runEv, stepEv, reqsOf, ih]; rw [run_eq]
-    | connLost => simp only [runEv, stepEv, reqsOf, ih]
-    | other => simp only [runEv, stepEv, reqsOf, ih]
+    | req r => simp only [runEv, stepEv, reqsOf, ih _ hes]; rw [run_eq]
+    | connLost => simp only [runEv, stepEv, reqsOf, ih _ hes]
+    | other => simp only [runEv, stepEv, reqsOf, ih _ hes]
+    | unpair => exact absurd rfl (h _ (List.mem_cons_self))
 
 /-- a served M1 always installs a fresh, unverified verifier made from this request's randomness,
     whatever verifier (or none) was there before -/
@@ -290,9 +293,10 @@ theorem step_identity (cfg : Cfg) (ps : PS) (r : Req) :
 
 /-- Specification ghost, independent of the code's own record: "in the exchange opened by the most
     recent M2 answer, the peer has sent an M3 whose proof is the expected one for its `A`, `A mod N ≠ 0`".
-    Reset by every served M1, set by a good M3. -/
+    Reset by every served M1, set by a good M3, and used up by an accepted M5 (O2): the exchange is
+    single use. -/
 def ghostNext (cfg : Cfg) (ps : PS) (d : Bool) (r : Req) : Bool :=
-  if isM2 (step cfg ps r).2.1 then false else d || goodM3 cfg ps r
+  if isM2 (step cfg ps r).2.1 || isO2 (step cfg ps r).2.1 then false else d || goodM3 cfg ps r
 
 /-- one served request: state before, ghost before, request, state after, answer -/
 structure Event where
@@ -324,13 +328,13 @@ theorem inv_step (cfg : Cfg) (ps : PS) (d : Bool) (r : Req)
   intro hv
   unfold ghostNext
   cases step_shape cfg ps r with
-  | noop hs h1 h2 hm hg => rw [hs] at hv; simp [hm, hg, hinv hv]
+  | noop hs h1 h2 hm hg => rw [hs] at hv; simp [hm, h2, hg, hinv hv]
   | m1 srv hs hvf => rw [hs] at hv; simp [verifiedNow, hvf] at hv
   | m3 srv hs hvf h1 h2 hm =>
     rw [hs] at hv
     have : goodM3 cfg ps r = true := by simpa [verifiedNow, hvf] using hv
-    simp [hm, this]
-  | m5 hver hs h2 h1 hm hg => simp [hm, hinv hver]
+    simp [hm, h2, this]
+  | m5 hver hs h2 h1 hm hg => simp [verifiedNow, hs] at hv
 
 /-- **Gate, all histories.**  Along any request sequence started in a state whose record implies the
     ghost: an M4 carrying the proof is only ever the answer to a good M3, and an M6 carrying the
@@ -381,5 +385,41 @@ theorem ghost_false (cfg : Cfg) (rs : List Req) : ∀ (ps : PS),
     · refine ih _ ?_ e (by rw [hnext] at he; exact he)
       intro e' he'
       exact hno e' (by simp only [trace, List.mem_cons]; right; rw [hnext]; exact he')
+
+
+/-! ### histories of events (requests, bystander activity, the owner unpairing the accessory) -/
+
+/-- the pair-setup requests served along a history of events, each with the state and the ghost in
+    which it was served; an `unpair` empties the pairing table and leaves everything else (verifier,
+    ghost) as it is -/
+def traceEv (cfg : Cfg) : PS → Bool → List Ev → List Event
+  | _, _, [] => []
+  | ps, d, .req r :: es =>
+    ⟨ps, d, r, (step cfg ps r).1, (step cfg ps r).2.1⟩
+      :: traceEv cfg (step cfg ps r).1 (ghostNext cfg ps d r) es
+  | ps, d, .unpair :: es => traceEv cfg { ps with paired := [] } d es
+  | ps, d, .connLost :: es => traceEv cfg ps d es
+  | ps, d, .other :: es => traceEv cfg ps d es
+
+/-- the gate over all histories of events -/
+theorem gate_traceEv (cfg : Cfg) (evs : List Ev) : ∀ (ps : PS) (d : Bool),
+    (verifiedNow ps = true → d = true) →
+    ∀ e ∈ traceEv cfg ps d evs,
+      (isO1 e.out = true → goodM3 cfg e.pre e.req = true) ∧
+      ((isO2 e.out = true ∨ e.post.paired ≠ e.pre.paired) → e.demo = true) := by
+  induction evs with
+  | nil => intro ps d _ e he; simp [traceEv] at he
+  | cons ev evs ih =>
+    intro ps d hinv e he
+    cases ev with
+    | req r =>
+      simp only [traceEv, List.mem_cons] at he
+      rcases he with rfl | he
+      · exact gate_trace cfg [r] ps d hinv _ (by simp [trace])
+      · exact ih _ _ (inv_step cfg ps d r hinv) e he
+    | unpair =>
+      exact ih { ps with paired := [] } d (by simpa [verifiedNow] using hinv) e (by simpa [traceEv] using he)
+    | connLost => exact ih _ _ hinv e (by simpa [traceEv] using he)
+    | other => exact ih _ _ hinv e (by simpa [traceEv] using he)
 
 end Hap.PairSetup
